@@ -96,6 +96,11 @@ def bad(k):
     return {"x": "bad", "k": k}
 
 
+def asg(n, e):
+    """(n := e): an assignment expression (modelled where it is a whole ${...} interpolation in text)"""
+    return {"x": "asg", "n": n, "e": e}
+
+
 def attrslen():
     """len(attrs): the number of static attributes of the innermost element"""
     return {"x": "attrslen"}
